@@ -155,11 +155,43 @@ def run(res, f, tier):
     ob(len(rows) == 1 and all(moved.get(k) == "self." + k for k in ("rules", "functions", "symbols")), "C15|build",
        "build must move the accepted rules, functions and symbols unchanged into the RuleSet: %s" % [r["ret"] for r in rows])
     # ------------------------------------------------------------------ functions
-    add_boxed = find1(f, "add_boxed_function", "UserFunctions")
+    # the admission function of the function table, by what it does: the UserFunctions method that inserts into the table
+    # (`add_boxed_function` today; a generic `add_function` that boxes and inserts itself is the same thing)
+    from mir import callee_of
+    adm_c = []
+    for d, b_ in f.bodies.items():
+        if b_.get("parent") or (b_.get("impl") or {}).get("self_s") != "function::UserFunctions" or (b_.get("impl") or {}).get("trait"):
+            continue
+        for blk in b_["blocks"]:
+            t_ = blk["term"]
+            if t_["k"] == "call" and not blk["cleanup"]:
+                c_ = callee_of(t_)
+                if c_ and short_callee(c_.get("resolved_full") or c_["full"]) in ("BTreeMap::insert", "VacantEntry::insert", "Entry::or_insert", "Entry::or_insert_with"):
+                    adm_c.append(d)
+    adm_c = sorted(set(adm_c))
+    if len(adm_c) != 1:
+        raise Inconclusive("the method of UserFunctions that inserts into the function table was not found (%s)" % adm_c)
+    add_boxed = adm_c[0]
+    ADM = short_callee(add_boxed)
     reserved = find1(f, "is_reserved_keyword", "")
     valid = find1(f, "is_valid_identifier", "")
-    rows = summ(f, add_boxed, ["self", "function"], opaque=lambda p: p in (reserved, valid))
-    N = "dyn UserFunction::name(function)"
+
+    def canon_fn(x):
+        """the function's own name / the function itself, boxed or not, dyn or generic"""
+        if isinstance(x, str):
+            x = re.sub(r"(?:dyn |impl )?UserFunction(?: \+ [\w']+)*::name\((?:function|Box::new\(function\))\)", "NAME", x)
+            x = re.sub(r"Box::new\((function|elem\d+\(into_iter\(functions\)\))\)", r"\1", x)
+            return x
+        if isinstance(x, tuple):
+            return tuple(canon_fn(y) for y in x)
+        if isinstance(x, list):
+            return [canon_fn(y) for y in x]
+        if isinstance(x, dict):
+            return {canon_fn(k): canon_fn(v) for k, v in x.items()}
+        return x
+
+    rows = canon_fn(summ(f, add_boxed, ["self", "function"], opaque=lambda p: p in (reserved, valid)))
+    N = "NAME"
     R, V, D = "keywords::is_reserved_keyword(%s)" % N, "keywords::is_valid_identifier(%s)" % N, "BTreeMap::contains_key(self.functions, %s)" % N
     ins = [r for r in rows if any(c[0] == "BTreeMap::insert" for c in r["calls"])]
     rest = [r for r in rows if r not in ins]
@@ -175,29 +207,30 @@ def run(res, f, tier):
         if len(refusing) != 1 or r["ret"] != want_err[refusing[0]]:
             bad.append((r["conds"], r["ret"]))
     ob(len(rest) == 3 and not bad, "C15|add_function|refusals", "each refusal must report the offending name with the matching error: %s" % bad)
-    # wrappers reach the table only through add_boxed_function
+    # the public ways in reach the table only through the admission function (wrappers in between are read through)
     add_fn = find1(f, "add_function", "UserFunctions")
-    rows = summ(f, add_fn, ["self", "function"], opaque=lambda p: p == add_boxed)
-    ob(len(rows) == 1 and rows[0]["ret"] == "UserFunctions::add_boxed_function(self, function)", "C15|add_function|wrapper", "add_function must box the function and delegate to add_boxed_function: %s" % [r["ret"] for r in rows])
+    if add_fn != add_boxed:
+        rows = canon_fn(summ(f, add_fn, ["self", "function"], opaque=lambda p: p == add_boxed))
+        ob(len(rows) == 1 and rows[0]["ret"] == "%s(self, function)" % ADM, "C15|add_function|wrapper", "add_function must box the function and delegate to %s: %s" % (ADM, [r["ret"] for r in rows]))
     with_fn = find1(f, "with_function", "Builder")
-    rows = summ(f, with_fn, ["self", "function"], opaque=lambda p: p == add_fn)
-    C = "UserFunctions::add_function(self.functions, function)"
-    ok = sorted((tuple(sorted(r["conds"].items())), r["ret"]) for r in rows) == sorted([(((C, "fails"),), "Err(%s)" % C.replace("add_function(", "add_function!err(")), (((C, "ok"),), "Ok(self)")])
+    rows = canon_fn(summ(f, with_fn, ["self", "function"], opaque=lambda p: p == add_boxed))
+    C = "%s(self.functions, function)" % ADM
+    ok = sorted((tuple(sorted(r["conds"].items())), r["ret"]) for r in rows) == sorted([(((C, "fails"),), "Err(%s)" % C.replace(ADM + "(", ADM + "!err(")), (((C, "ok"),), "Ok(self)")])
     ob(ok, "C15|with_function", "with_function must add through the function table and keep the builder otherwise unchanged: %s" % [(r["conds"], r["ret"]) for r in rows])
     with_fns = find1(f, "with_functions", "Builder")
-    rows = summ(f, with_fns, ["self", "functions"], opaque=lambda p: p == add_boxed)
+    rows = canon_fn(summ(f, with_fns, ["self", "functions"], opaque=lambda p: p == add_boxed))
     good = len(rows) >= 4
     for r in rows:
-        calls = [c for c in r["calls"] if c[0] == "UserFunctions::add_boxed_function"]
+        calls = [c for c in r["calls"] if c[0] == ADM]
         for i, c in enumerate(calls):
-            if c != ("UserFunctions::add_boxed_function", "self.functions", "elem%d(into_iter(functions))" % i):
+            if c != (ADM, "self.functions", "elem%d(into_iter(functions))" % i):
                 good = False
-        failed = [k for k, v in r["conds"].items() if k.startswith("UserFunctions::add_boxed_function(") and v == "fails"]
+        failed = [k for k, v in r["conds"].items() if k.startswith(ADM + "(") and v == "fails"]
         if failed:
-            good = good and r["ret"].startswith("Err(UserFunctions::add_boxed_function!err(")
+            good = good and r["ret"].startswith("Err(%s!err(" % ADM)
         else:
             good = good and r["ret"] == "Ok(self)"
-    ob(good, "C15|with_functions", "with_functions must add each function through add_boxed_function, in order, stopping at the first refusal", {"paths": [(r["conds"], r["ret"]) for r in rows][:4]})
+    ob(good, "C15|with_functions", "with_functions must add each function through %s, in order, stopping at the first refusal" % ADM, {"paths": [(r["conds"], r["ret"]) for r in rows][:4]})
     # identifier predicate
     rows = summ(f, valid, ["name"])
     ALL = "Chars::all(str::chars(name), fn char::is_xid_continue)"
@@ -296,7 +329,7 @@ def run(res, f, tier):
                         writers["functions"].add(b.get("parent") or d)
                     if ts == "std::vec::Vec<ruleset::rule::Rule>":
                         writers["rules"].add(b.get("parent") or d)
-    ob(writers["functions"] <= {add_boxed}, "C15|who-writes|functions", "the function table may be mutated only by add_boxed_function: %s" % sorted(writers["functions"]))
+    ob(writers["functions"] <= {add_boxed}, "C15|who-writes|functions", "the function table may be mutated only by %s: %s" % (ADM, sorted(writers["functions"])))
     ob(writers["rules"] <= {with_rule}, "C15|who-writes|rules", "the rule list may be mutated only by with_rule: %s" % sorted(writers["rules"]))
     # ------------------------------------------------------------------ symbols: last registration wins
     with_symbol = find1(f, "with_symbol", "Builder")
